@@ -1960,7 +1960,21 @@ def run(ck: Ck) -> None:
     lap('gen-image')
     if built and ok3:
         c = 'si_gen_cfg'
-        tie(ck.instance_obligations(IMP_IMGCFG, {
+        prop_imps: list[str] = []
+        prop_obs: dict[str, str] = {}
+        if all((ok1, ok2, ok4, ok5, ok6, ok7)):
+            # the single hypothesis of Props/C20.v c20_property, for the record of everything the translators regenerated in this run.
+            # Fully qualified names, and the extra modules imported BEFORE the ones of this group (the Gen modules define overlapping
+            # short names: the later import wins, so the expressions below keep their meaning).  It is the conjunction of booleans that
+            # are also discharged one by one: when it fails, one of those names the site and escalates its format family.
+            G = 'SV.Gen.'
+            rec = (f'SV.Fmt.C20Property.mkGen {G}CmdSeqFmt_gen.gen_cfg {G}ScenesImg_gen.si_gen_cfg {G}TextFields_gen.snd_v2_guard '
+                   f'{G}TextFields_gen.snd_stack_blocks {G}KeyTables_gen.kt_tables (Coq.Lists.List.map (@snd _ _) {G}QuantSites_gen.cq_sites) '
+                   f'{G}TextFields_gen.vmt_nq {G}TextFields_gen.snd_lines {G}TextFields_gen.cho_lines {G}SmdTpl_gen.smd_lines')
+            prop_imps = ['SV.Fmt.C20Property', 'SV.Gen.CmdSeqFmt_gen', 'SV.Gen.TextFields_gen', 'SV.Gen.KeyTables_gen', 'SV.Gen.QuantSites_gen',
+                         'SV.Gen.SmdTpl_gen']
+            prop_obs = {'c20_property_premises_hold_for_the_objects_regenerated_from_todays_source': f'SV.Fmt.C20Property.premises ({rec})'}
+        ires = ck.instance_obligations(prop_imps + IMP_IMGCFG, {
             'image_magic_is_VSIF_on_both_sides': f'magic_okb {c}',
             'image_header_is_4s_version_scenes_strings_offset': f'hdr_okb {c}',
             'image_header_writer_and_reader_agree': f'same_layout hsrc_eqb (ic_hdr_w {c}) (ic_hdr_r {c})',
@@ -1979,7 +1993,11 @@ def run(ck: Ck) -> None:
             'image_strings_same_encoding_on_both_sides': f'ic_same_encoding {c}',
             'image_reader_keys_entries_by_stored_checksum': f'ic_reader_keys_by_crc {c}',
             'image_cfg_ok': f'icfg_okb {c}',
-        }, name='imgcfg'), 'choreo.py save_scenes_image_sync / parse_scenes_image')
+            **prop_obs,
+        }, name='imgcfg')
+        tie({k: v for k, v in ires.items() if k not in prop_obs}, 'choreo.py save_scenes_image_sync / parse_scenes_image')
+        if not all(ires.values()) and not ck.tie_broken:
+            ck.tie_broken.append('the hypothesis of c20_property fails although every named obligation holds')
         lap('instance-image')
         launch(corr_image_pool(ck))
         lap('gen-image-pool')
@@ -2030,6 +2048,8 @@ def run(ck: Ck) -> None:
                 ck.explain('correspondence:sndscript-line-census')
             if pre == 'vmt:':
                 ck.explain('correspondence:vmt-quoting')
+    if any(not k.endswith(':flex-animation-block') for k in keys):
+        ck.explain('instance:c20_property_premises')        # a conjunction: the conjunct that fails is explained above
     if any(k.startswith('scenes-image:') for k in keys):
         ck.explain('correspondence:scenes-image')
         ck.explain('instance:image_')
